@@ -1,8 +1,10 @@
 (* C29 — Entries committed by a leader survive every later leader.
    Pinned statements only; proofs in theories/RaftProofs.v; model theories/Raft.v.
 
-   `rv : raftrev` is the revision of the election code (Raft.v; `rr_pinned` before, `rr_fixed` after the two
-   election repairs of C27); the check compares the code with the model of the revision found in the source tree.
+   `rv : raftrev` is the revision of raft.rs (Raft.v): `rr_pinned` before all repairs, `rr_before_ack_fix` after the
+   two election repairs of C27, `rr_fixed` after these and the acknowledgement repair `fix_ack_term` ("a leader counts
+   only acknowledgements of its current term", fixes/C28-count-only-current-term-acks.diff); the check compares the code
+   with the model of the revision found in the source tree.
 
    FULL STATEMENT (false of the faithful model of every revision):
      forall size evs, leader_completeness (c_hist (run rv size evs))
@@ -13,15 +15,17 @@
    What is machine-checked:
    * the refutation, split by cause; `classes h` = (double vote, stale vote counted, ack from diverged log,
      old-term commit, ack below voted term), plus a THIRD log-replication class found while attempting the
-     conditional proof, `commit-without-quorum` (RaftLog.v);
-   * the CONDITIONAL THEOREM `C29_partial` for the code in /repo (rr_fixed): if none of the three log-replication
+     conditional proof, `commit-without-quorum` (RaftLog.v) — the class removed by the acknowledgement repair: its
+     witness is stated for the revisions without that repair, and the same event list is harmless under `rr_fixed`
+     (`C29_commit_noquorum_witness_harmless_fixed`);
+   * the CONDITIONAL THEOREM `C29_partial` for rr_fixed: if none of the three log-replication
      classes occurs, every entry committed by a leader of term t is in the log of every later leader of a HIGHER
      term; `C29_partial_literal` gives the literal statement under one more hypothesis that excludes a harmless
      situation (a stale candidate becomes Leader of an OLDER term after the commit), and
      `C29_literal_refuted_by_late_leader` shows that this hypothesis cannot be dropped: the literal statement is
      stronger than Raft's Leader Completeness and fails in a history that is fine. *)
 From Coq Require Import NArith List.
-From Agdb Require Import Raft RaftWitness RaftProofs RaftLog RaftLogProofs RaftLogMatch RaftLogLC RaftLogCA.
+From Agdb Require Import Raft RaftWitness RaftProofs RaftLog RaftLogProofs RaftLogMatch RaftLogLC RaftLogCA RaftLogAck.
 Import ListNotations.
 Open Scope N_scope.
 
@@ -59,25 +63,78 @@ Print Assumptions C29_refuted_ack_below_vote.
    index at which fewer than size/2+1 nodes of its term hold its entry — commit() counts rows of the peer table
    that are not acknowledgements of the current term (rows are never reset on election, update_node writes them
    from the peer's own requests, response() accepts acknowledgements of any term).
-   Every revision: a 5-node history with one leader per term in which NONE of the five classes of `classes` occurs
+   Every revision WITHOUT the acknowledgement repair (in particular `rr_before_ack_fix` = the code before the patch):
+   a 5-node history with one leader per term in which NONE of the five classes of `classes` occurs
    ends with a new leader that lacks a leader-committed entry (corpus/C29/commit_noquorum.txt). *)
-Theorem C29_refuted_commit_noquorum : forall rv,
+Theorem C29_refuted_commit_noquorum : forall rv, fix_ack_term rv = false ->
   exists size evs, let h := c_hist (run rv size evs) in
     size <> 1 /\ election_safety h /\ classes h = (false, false, false, false, false) /\
     commit_noquorum_b rv size evs = true /\ ~ leader_completeness h.
 Proof. exact RaftLogProofs.C29_refuted_commit_noquorum. Qed.
 Print Assumptions C29_refuted_commit_noquorum.
 
-(* hence "no acknowledgement from a diverged log and no old-term commit" does NOT imply the property *)
-Theorem C29_two_classes_not_enough : forall rv,
+Theorem C29_refuted_commit_noquorum_before_ack_fix :
+  exists size evs, let h := c_hist (run rr_before_ack_fix size evs) in
+    size <> 1 /\ election_safety h /\ classes h = (false, false, false, false, false) /\
+    commit_noquorum_b rr_before_ack_fix size evs = true /\ ~ leader_completeness h.
+Proof. exact RaftLogProofs.C29_refuted_commit_noquorum_before_ack_fix. Qed.
+Print Assumptions C29_refuted_commit_noquorum_before_ack_fix.
+
+(* hence, before the acknowledgement repair, "no acknowledgement from a diverged log and no old-term commit" does NOT
+   imply the property *)
+Theorem C29_two_classes_not_enough : forall rv, fix_ack_term rv = false ->
   ~ (forall size evs, size <> 1 ->
        ack_diverged_b (c_hist (run rv size evs)) = false -> old_term_commit_b (c_hist (run rv size evs)) = false ->
        leader_completeness (c_hist (run rv size evs))).
 Proof. exact two_classes_not_enough_C29. Qed.
 Print Assumptions C29_two_classes_not_enough.
 
+(* the SAME event lists (corpus/C28/commit_noquorum.txt, corpus/C29/commit_noquorum.txt) under the repaired revision:
+   every leader holds every entry committed by an earlier leader (literal reading), all nodes agree on what they
+   committed, one leader per term, nothing committed without a quorum *)
+Example C29_commit_noquorum_witness_harmless_fixed :
+  (let c := run rr_fixed w28_commit_noquorum_n w28_commit_noquorum in
+   committed_agree c /\ leader_completeness (c_hist c) /\ election_safety (c_hist c) /\
+   commit_noquorum_b rr_fixed w28_commit_noquorum_n w28_commit_noquorum = false) /\
+  (let c := run rr_fixed w29_commit_noquorum_n w29_commit_noquorum in
+   committed_agree c /\ leader_completeness (c_hist c) /\ election_safety (c_hist c) /\
+   commit_noquorum_b rr_fixed w29_commit_noquorum_n w29_commit_noquorum = false).
+Proof. exact commit_noquorum_witnesses_harmless_fixed. Qed.
+Print Assumptions C29_commit_noquorum_witness_harmless_fixed.
+
+(* ------------------------------------------------------------------ the ROOT CAUSE of `commit-without-quorum`, and its repair
+   `stale_ack_counted_b rv size evs` (RaftLog.v; a function of the run, reconstructed with a ghost that records for
+   every row of every peer table whether it was written by `commit()` from an Ok answer to an Append/Heartbeat request
+   of the leader's current term since the node became Leader): at a step that raises the commit index of a node that
+   is and stays Leader, some row of ANOTHER node with log_index >= the new commit index — a row `commit()` counted —
+   is not such an acknowledgement.  Unlike the semantic marker `commit_noquorum_b` it does not fire when a correct
+   leader counts a follower that acknowledged and has since moved to a higher term.
+
+   PROVED (RaftLogAck.v), every cluster size (1 included), every adversarial event list: with the acknowledgement
+   repair the marker is never set — a Leader counts only acknowledgements of its current term.  Invariant: every row of
+   another node in a Leader's table that is not a fresh acknowledgement has log_index 0 (cleared at election; written
+   since by `commit()` only, which the guard of `response()` admits only for answers of the current term), and a row
+   with log_index 0 is not counted at a step that raises the commit index. *)
+Theorem C29_no_stale_ack_fixed : forall size evs, stale_ack_counted_b rr_fixed size evs = false.
+Proof. exact RaftLogAck.stale_ack_never_fixed. Qed.
+Print Assumptions C29_no_stale_ack_fixed.
+
+(* the same for every revision with the acknowledgement repair, whatever the election flags *)
+Theorem C29_no_stale_ack_any_election_revision : forall rv size evs,
+  fix_ack_term rv = true -> stale_ack_counted_b rv size evs = false.
+Proof. exact RaftLogAck.stale_ack_never. Qed.
+Print Assumptions C29_no_stale_ack_any_election_revision.
+
+(* non-vacuity / the defect before the repair: in both `commit_noquorum` corpus histories the leader of term 2
+   counts the row of the deposed leader of term 1, written by `update_node` from that leader's own Append request *)
+Example C29_stale_ack_before_ack_fix :
+  stale_ack_counted_b rr_before_ack_fix w28_commit_noquorum_n w28_commit_noquorum = true /\
+  stale_ack_counted_b rr_before_ack_fix w29_commit_noquorum_n w29_commit_noquorum = true.
+Proof. exact RaftLogAck.stale_ack_witnesses_before_ack_fix. Qed.
+Print Assumptions C29_stale_ack_before_ack_fix.
+
 (* ------------------------------------------------------------------ the CONDITIONAL THEOREM
-   PROVED for the repaired election code (rr_fixed = the code in /repo), every cluster size other than 1 and every
+   PROVED for the repaired code (rr_fixed), every cluster size other than 1 and every
    adversarial event list (proof: RaftLogWf.v, RaftLogMatch.v, RaftLogHand.v, RaftLogLC.v — log matching, then the
    inductive invariant LC; C27_election_safety and the election invariants J, K are used at every step):
 
@@ -87,7 +144,13 @@ Print Assumptions C29_two_classes_not_enough.
         commit-without-quorum   commit_noquorum_b rr_fixed size evs = false
    then an entry committed by a leader of term t is in the log of every node that becomes leader later FOR A HIGHER
    TERM (Raft's Leader Completeness).  So these three classes are the only ways raft.rs (with the C27 repairs)
-   can lose a leader-committed entry to a leader of a higher term. *)
+   can lose a leader-committed entry to a leader of a higher term.
+   NOT DONE (hence `_partial`): the third hypothesis is still the SEMANTIC marker.  With the acknowledgement repair the
+   root cause is gone (`C29_no_stale_ack_fixed`), but the semantic marker can still be set in harmless histories of
+   rr_fixed (a follower acknowledges and then votes in a higher term before the leader counts it), so the hypothesis
+   cannot simply be dropped: that needs Raft's acknowledgement-history argument (an acknowledgement of (T, idx) by v
+   precedes every vote of v for a term > T; quorum intersection between ackers and voters) in place of the present
+   state invariant "a quorum of nodes of term T holds the entry at the commit step" — RAFT_NOTES.md, round 5. *)
 Theorem C29_partial : forall size evs,
   size <> 1 ->
   ack_diverged_b (c_hist (run rr_fixed size evs)) = false ->
